@@ -1,0 +1,10 @@
+//go:build verif
+
+// Contracts for the verif build tag (read by /verif/govc; comment-only).
+package internal
+
+//@ func overlap
+//@ property C18
+//@ requires a.MinInclusive <= a.MaxInclusive && b.MinInclusive <= b.MaxInclusive
+//@ ensures result <==> exists h uint32 :: a.MinInclusive <= h && h <= a.MaxInclusive && b.MinInclusive <= h && h <= b.MaxInclusive
+//@ modifies nothing
